@@ -86,3 +86,20 @@ def block_after(edge, limit=12):
         if cur.kind in ('return', 'exit', 'throw', 'unreach') or len(cur.succ) != 1: break
         cur = cur.succ[0]
     return out
+
+
+def call_truth(cond):
+    """(call, polarity) when cond is `f(...)` or `!f(...)` possibly wrapped in __builtin_expect / !! / casts: cond is true exactly when
+    the call's truth value equals `polarity`.  None otherwise."""
+    s = cond; pol = True
+    for _ in range(12):
+        s = A.strip(s, casts=True)
+        if s is None: return None
+        k = s.get('k')
+        if k == 'UnaryOperator' and s.get('op') == '!':
+            pol = not pol; s = s.get('sub'); continue
+        if k == 'CallExpr' and A.callee_name(s) == '__builtin_expect':
+            s = (s.get('args') or [None])[0]; continue
+        if k in ('CallExpr', 'CXXMemberCallExpr'): return s, pol
+        return None
+    return None
